@@ -331,20 +331,23 @@ R4_RULES = [
      r'vx_chain3_collect(&\g<a>.payload, &\g<b>.payload, &\g<c>.payload)', None),
     ('R11-eta', r'\.\s*map_err\s*\(\s*(?P<c>[A-Z]\w*::[A-Z]\w*)\s*\)', r'.map_err(|e| \g<c>(e))', None),
     ('R4-map-unwrap', r'(?P<e>\b\w+)\s*\.\s*map\s*\(\s*\|\s*x\s*\|\s*x\s*\.\s*unwrap\s*\(\s*\)\s*\)', r'vx_map_unwrap(\g<e>)', None),
-    ('R4-oneshot-await', r'\breceiver\s*\.\s*await', r'receiver.vx_recv().await', None),
+    ('R4-oneshot-await', r'\b(?P<x>receiver|wait_for)\s*\.\s*await', r'\g<x>.vx_recv().await', None),
     ('R4-get-prefix', r'\.\s*get\s*\(\s*\.\.\s*(?P<n>\d+)\s*\)', r'.vx_get_prefix(\g<n>)', None),
     ('R4-range-index', r'(?P<amp>&\s*)?(?P<e>\b[a-z_][A-Za-z0-9_]*(?:\.[a-z0-9_]+)*)\s*\[\s*(?P<lo>\d*)\s*\.\.\s*(?P<hi>\d*)\s*\]', None, 'range'),
     ('R4-try-into', r'\.\s*try_into\s*\(\s*\)', r'.vx_try_into()', None),
     ('R3-wild-closure', r'\|\s*_\s*\|', r'|_e|', None),
     ('R4-concat2', r'\[\s*(?P<a>[\w\.]+)\s*,\s*(?P<b>[\w\.]+)\s*\]\s*\.\s*concat\s*\(\s*\)', r'vx_concat2(\g<a>, \g<b>)', None),
     ('R4-drain-all', r'(?P<e>%s)\s*\.\s*drain\s*\(\s*\.\.\s*\)\s*\.\s*collect\s*\(\s*\)' % _E, r'vx_drain_all(&mut \g<e>)', None),
-    ('R4-unzip', r'(?P<e>%s)\s*\.\s*iter\s*\(\s*\)\s*\.\s*cloned\s*\(\s*\)\s*\.\s*unzip\s*\(\s*\)' % _E, r'vx_unzip(&\g<e>)', None),
+    ('R4-unzip', r'(?P<e>%s(?:\s*\([^()]*\))?)\s*\.\s*iter\s*\(\s*\)\s*\.\s*cloned\s*\(\s*\)\s*\.\s*unzip\s*\(\s*\)' % _E, r'vx_unzip(&\g<e>)', None),
     ('R4-zip-collect', r'(?P<a>\b\w+)\s*\.\s*into_iter\s*\(\s*\)\s*\.\s*zip\s*\(\s*(?P<b>\w+)\s*\.\s*into_iter\s*\(\s*\)\s*\)\s*\.\s*collect\s*\(\s*\)', r'vx_zip_collect(\g<a>, \g<b>)', None),
     ('R4-pin', r'tokio\s*::\s*pin\s*!\s*\(\s*(?P<x>\w+)\s*\)\s*;', r'let mut \g<x> = vx_pin(\g<x>);', None),
     ('R4-deadline', r'Instant\s*::\s*now\s*\(\s*\)\s*\+\s*Duration\s*::\s*from_millis\s*\(\s*(?P<e>[^()]*)\s*\)', r'vx_deadline(\g<e>)', None),
     ('R4-bench-sample-ids', r'self\s*\.\s*current_batch\s*\.\s*iter\s*\(\s*\)\s*\.\s*filter\s*\((?:[^;]*?)\)\s*\.\s*filter_map\s*\((?:[^;]*?)\)\s*\.\s*collect\s*\(\s*\)', r'vx_bench_sample_ids(&self.current_batch)', None),
     ('R4-retain-open', r'\.\s*retain\s*\(\s*\|\s*\(\s*_\s*,\s*handler\s*\)\s*\|\s*!\s*handler\s*\.\s*is_closed\s*\(\s*\)\s*\)', r'.vx_retain_open()', None),
     ('R4-from-be-bytes', r'u64\s*::\s*from_be_bytes\s*\(', r'vx_u64_from_be_bytes(', None),
+    ('R4-drain-set', r'(?P<e>%s)\s*\.\s*drain\s*\(\s*\)\s*\.\s*collect\s*\(\s*\)' % _E, r'vx_drain_set(&mut \g<e>)', None),
+    ('R4-stake-waiters-zip', r'(?P<a>\b\w+)\s*\.\s*into_iter\(\)\s*\.\s*zip\(\s*(?P<b>\w+)\s*\.\s*into_iter\(\)\s*\)\s*\.\s*map\(\s*\|\(name, handler\)\|\s*\{\s*let stake = self\.committee\.stake\(&name\);\s*Self::waiter\(handler, stake\)\s*\}\s*\)\s*\.\s*collect\(\)', r'vx_stake_waiters(\g<a>, \g<b>, &self.committee)', None),
+    ('R4-stake-waiters-pairs', r'(?P<a>\b\w+)\s*\.\s*into_iter\(\)\s*\.\s*map\(\s*\|\(name, handler\)\|\s*\{\s*let stake = self\.committee\.stake\(&name\);\s*Self::waiter\(handler, stake\)\s*\}\s*\)\s*\.\s*collect\(\)', r'vx_stake_waiters_pairs(\g<a>, &self.committee)', None),
     ('R4-retain-ge', r'\.\s*retain\s*\(\s*\|\s*k\s*,\s*_\s*\|\s*k\s*>=\s*(?P<r>\w+)\s*\)', r'.vx_retain_keys_ge(\g<r>)', None),
     ('R4-get-map-or-else-stake', r'(?P<e>%s)\s*\.\s*get\s*\(\s*(?P<k>\w+)\s*\)\s*\.\s*map_or_else\s*\(\s*\|\s*\|\s*0\s*,\s*\|\s*x\s*\|\s*x\s*\.\s*stake\s*\)' % _E,
      r'(match \g<e>.get(\g<k>) { None => 0, Some(x) => x.stake })', None),
